@@ -158,6 +158,8 @@ def check(case, ctx):
     else:
         carg = O.ro(cell) if case.get("M", 0) is not None and case.get("M", 0) % 2 else cell
     out = mod.reduce_cell(carg)
+    if case.get("M", 0) is not None and case.get("M", 0) % 5 == 0:
+        ctx.later("%s.reduce_cell" % m, mod.reduce_cell, [float(x) for x in cell])
     out = [float(x) for x in out]
     if not all(math.isfinite(x) for x in out) or len(out) != 6:
         ctx.fail("non-finite/" + m, "%s.reduce_cell(%r) = %r" % (m, cell, out))
